@@ -99,6 +99,9 @@ func JSONWriteDurationProp(b *[]byte, n string, d time.Duration) (notEmpty bool)
 }
 
 func JSONWriteIRIProp(b *[]byte, n string, i LinkOrIRI) (notEmpty bool) {
+	if IsNil(i) {
+		return false
+	}
 	url := i.GetLink().String()
 	if len(url) == 0 {
 		return false
